@@ -92,7 +92,7 @@ impl Dump {
 
     let input = env.read(target.clone())?;
 
-    let value = Value::from_bencode(&input.data).map_err(|error| Error::MetainfoDecode {
+    let value = Infohash::decode_value(&input.data).map_err(|error| Error::MetainfoDecode {
       input: input.source.clone(),
       error,
     })?;
